@@ -26,7 +26,7 @@ fn client_resp_ty(ret: &str) -> String { let r = inner_of(ret, "tonic::Response<
 const KINDS: [&str; 4] = ["unary", "server_streaming", "client_streaming", "streaming"];
 
 #[derive(Default)]
-struct Body { lits: Vec<String>, calls: Vec<(String, String)>, qself_calls: Vec<String>, impls: Vec<(String, String)>, resp_types: Vec<String>, gm: Vec<Vec<String>> }
+struct Body { lits: Vec<String>, calls: Vec<(String, String)>, qself_calls: Vec<String>, impls: Vec<(String, String)>, resp_types: Vec<String>, resp_streams: Vec<String>, gm: Vec<Vec<String>> }
 impl<'ast> Visit<'ast> for Body {
     fn visit_lit_str(&mut self, l: &'ast syn::LitStr) { self.lits.push(l.value()); }
     fn visit_expr_method_call(&mut self, m: &'ast syn::ExprMethodCall) {
@@ -51,7 +51,11 @@ impl<'ast> Visit<'ast> for Body {
                 let name = seg.ident.to_string();
                 if name.ends_with("Service") { if let syn::PathArguments::AngleBracketed(a) = &seg.arguments { self.impls.push((name, a.args.iter().map(|x| ts(x)).collect::<Vec<_>>().join(","))); } }
             }
-            for it in &i.items { if let syn::ImplItem::Type(t) = it { if t.ident == "Response" { self.resp_types.push(ts(&t.ty)); } } }
+            for it in &i.items { if let syn::ImplItem::Type(t) = it {
+                if t.ident == "Response" { self.resp_types.push(ts(&t.ty)); }
+                // the item type of a boxed response stream (default stubs); "" when the stream type is the service's own associated type
+                if t.ident == "ResponseStream" { let ty = ts(&t.ty); self.resp_streams.push(if ty.contains("BoxStream<") { inner_of(&ty, "BoxStream<") } else { String::new() }); }
+            } }
         }
         syn::visit::visit_item_impl(self, i);
     }
@@ -94,7 +98,7 @@ impl<'ast> Visit<'ast> for Top {
                     any = true;
                     let mut b = Body::default(); b.visit_expr(&arm.body);
                     self.server.push(json!({"path": s.value(), "impls": b.impls.iter().map(|(n, a)| json!({"trait": n, "args": a})).collect::<Vec<_>>(),
-                        "resp": b.resp_types, "grpc_calls": b.calls.iter().filter(|c| c.0 == "grpc").map(|c| c.1.clone()).collect::<Vec<_>>(), "trait_calls": b.qself_calls}));
+                        "resp": b.resp_types, "resp_stream_items": b.resp_streams, "grpc_calls": b.calls.iter().filter(|c| c.0 == "grpc").map(|c| c.1.clone()).collect::<Vec<_>>(), "trait_calls": b.qself_calls}));
                 }
             }
         }
